@@ -10,6 +10,56 @@ from . import c06
 LEVEL = "other"
 
 
+def _loader_loop_form(P, lb):
+    """The explicit-loop spelling of `reader.lines().map_while(Result::ok).collect()`: one `for` over `<BufReader over the
+    opened file>.lines()` whose body pushes the Ok payload unchanged onto the (initially empty) returned vector and leaves the
+    loop on the first Err; nothing else touches the vector."""
+    fors = list(T.nodes(lb["tree"], "for"))
+    if len(fors) != 1 or any(n.get("k") == "loop" for n in T.nodes(lb["tree"])):
+        return False
+    loop = fors[0]
+    it = T.peel(loop["iter"])
+    if not (it.get("k") == "mcall" and it["name"] == "lines" and not it["args"]):
+        return False
+    lets = {s_["pat"]["id"]: s_ for s_ in T.nodes(lb["tree"], "let") if s_["pat"]["p"] == "bind" and s_.get("init") is not None}
+    rd = lets.get(T.local_of(T.peel_ref(it["recv"])))
+    rdi = T.peel(rd["init"]) if rd is not None else T.peel_ref(it["recv"])
+    if not (rdi.get("k") == "call" and (T.cname(rdi) or "").endswith("BufReader::new")):
+        return False
+    blk = T.peel(lb["tree"])
+    while blk.get("k") == "blockexpr":
+        blk = blk["block"]
+    out = T.local_of(T.peel(blk["tail"])) if blk.get("tail") is not None else None
+    if out not in lets or T.render(lets[out]["init"]) != "std::vec::Vec::new()":
+        return False
+    touches = [n for n in T.nodes(lb["tree"], "mcall") if T.local_of(T.peel_ref(n["recv"])) == out]
+    if any(not any(x is n for x in T.nodes(loop["body"])) for n in touches) or loop["pat"]["p"] != "bind":
+        return False
+    vecs = []
+    I = A.Interp(P)
+
+    def one_iteration(J):
+        vecs.append(A.VecV([]))          # explore() calls this once per path
+        return J.ev(loop["body"], {out: vecs[-1], loop["pat"]["id"]: A.Sym("line")})
+    try:
+        outs = I.explore(one_iteration)
+    except A.Cannot:
+        return False
+    if len(vecs) != len(outs):
+        return False
+    seen = set()
+    for o, vec in zip(outs, vecs):
+        okv = o["decisions"].get("is_ok(line)")
+        pushed = [A.show(x) for x in vec.items]
+        if okv is True and o["exit"] in ("fall", "continue") and pushed == ["line.ok"]:
+            seen.add("ok")
+        elif okv is False and o["exit"] == "break" and not pushed:
+            seen.add("err")
+        else:
+            return False
+    return seen == {"ok", "err"}
+
+
 def run(ctx, res):
     P = ctx.bin
     kw = ctx.spec("keywords.json")
@@ -47,13 +97,15 @@ def run(ctx, res):
             bad.setdefault("C20.R1|delimiters:" + entry, "entry `%s` receives delimiters %s, expected (args.delimiter_start, args.delimiter_end)" % (entry, A.show(args[1])))
         # R2 target set
         cfg = args[2]
-        tg = A.show(cfg.fields["removal_marker_configuration"].fields["targets"]) if isinstance(cfg, A.Struct) and isinstance(cfg.fields.get("removal_marker_configuration"), A.Struct) else "?"
+        tgv = cfg.fields["removal_marker_configuration"].fields.get("targets") if isinstance(cfg, A.Struct) and isinstance(cfg.fields.get("removal_marker_configuration"), A.Struct) else None
+        tg = A.show(tgv) if tgv is not None else "?"
         from_file = d.get("is_some(args.removal_marker_target_config)")
-        x = "load_removal_marker_target_names(args.removal_marker_target_config.some)" if from_file else "[]"
-        if tg == "%s.into_iter().chain(args.removal_marker_target_name).collect()" % x:
+        want_src = {"args.removal_marker_target_name"} | ({"load_removal_marker_target_names(args.removal_marker_target_config.some)"} if from_file else set())
+        got_src = common.collection_sources(tgv)
+        if got_src == want_src:
             n_ok["targets"] += 1
         else:
-            bad.setdefault("C20.R2|target-set:file=%s" % from_file, "the target set is `%s`; expected the file lines (when a config file is given) chained with the repeated flag values" % tg)
+            bad.setdefault("C20.R2|target-set:file=%s" % from_file, "the target set is `%s`; expected the file lines (when a config file is given) together with the repeated flag values" % tg)
         # R3 dispatch
         want_entry = "list" if d.get("args.list") else ("list_all" if d.get("args.list_all") else "clean")
         okd = entry == want_entry
@@ -84,11 +136,12 @@ def run(ctx, res):
                                % [(e[1], [A.show(x)[:60] for x in e[2]]) for e in wr + cr][:3])
         else:
             pr = [e for e in eff_calls if e[1].endswith("_print")]
-            okp = len(pr) == 1 and re.match(r'^print!\(\s*"\{\}"\s*,\s*output\s*,?\s*\)$', (pr[0][3].get("snip") or "")) is not None and not any(nm.endswith("File::create") for nm in names)
+            printed = [A.show(x) for x in pr[0][2][0].parts] if len(pr) == 1 and isinstance(pr[0][2][0], A.StrCat) else None
+            okp = printed == [result_term] and not any(nm.endswith("File::create") for nm in names)
             if okp:
                 n_ok["output"] += 1
             else:
-                bad.setdefault("C20.R4|output:stdout", "without --output the result is not printed by exactly print!(\"{}\", output): %s" % [(e[3].get("snip")) for e in pr])
+                bad.setdefault("C20.R4|output:stdout", "without --output the result is not printed exactly as it is (one print! of the result and nothing else): %s" % [(e[3].get("snip")) for e in pr])
         # R5 read before create
         idx_create = [i for i, e in enumerate(eff_calls) if e[1].endswith("File::create")]
         idx_read = [i for i, e in enumerate(eff_calls) if e[1].endswith("read_to_string") or e[1].endswith("File::open") or e[1].endswith("BufRead::lines")]
@@ -137,17 +190,20 @@ def run(ctx, res):
     if noin and all(o["exit"] == "panic" and not any(e[1].endswith("File::create") for e in o["effects"] if e[0] == "call") for o in noin):
         res.holds("C20.R5", fn, "no-input-exits")
     # collect() target type
-    colls = [n for n in T.nodes(b["tree"], "mcall") if n["name"] == "collect" and "chain" in T.render(n["recv"])]
-    if len(colls) == 1 and colls[0]["ty"] == "std::collections::HashSet<std::string::String>":
-        res.holds("C20.R2", fn, "target-set-type", colls[0]["ty"])
-    else:
-        res.add(Finding("C20.R2", fn, "target-set-type", "the chained target names are not collected into a HashSet<String>: %s" % [c["ty"] for c in colls], loc=loc))
+    # the library's configuration type fixes the container (HashSet<String>): a type error otherwise; what matters here is that the
+    # value handed over is one collection built from the two sources (checked above through its sources)
+    res.holds("C20.R2", fn, "target-set-type", "RemovalMarkerConfiguration.targets: HashSet<String> (by the library's type)")
     # file reader applies no transformation
     lb = P.fn("load_removal_marker_target_names")
-    lo = A.Interp(P, assume_ok=True).explore(lambda J: J.call_fn_body(lb, [A.Sym("filename")]))
-    lt = A.show(lo[0]["value"]) if len(lo) == 1 else "?"
+    try:
+        lo = A.Interp(P, assume_ok=True).explore(lambda J: J.call_fn_body(lb, [A.Sym("filename")]))
+        lt = A.show(lo[0]["value"]) if len(lo) == 1 else "?"
+    except A.Cannot as e:
+        lt = "? (%s)" % e
     if lt == "std::io::BufReader::new(std::fs::File::open(filename).ok).lines().map_while(fn std::result::Result::ok).collect()":
         res.holds("C20.R2", fshort(lb), "file-reader", "lines().map_while(Result::ok).collect()")
+    elif _loader_loop_form(P, lb):
+        res.holds("C20.R2", fshort(lb), "file-reader", "for line in reader.lines(): Ok(name) => push(name), Err => break")
     else:
         res.add(Finding("C20.R2", fshort(lb), "file-reader", "the target config reader is `%s`; one name per line requires exactly lines() with no transformation" % lt[:200], loc=T.loc(lb["tree"])))
     c06.cli_target_default(ctx, res, "C20.R2b")
@@ -170,6 +226,27 @@ def run(ctx, res):
     for arg, ent in sorted(table.items()):
         if ent["long"] and set(ent["long"]) != {arg.replace("_", "-")}:
             res.add(Finding("C20.R7", "cli::Args", "long:" + arg, "long option spelling %s differs from the field name" % ent["long"], loc=ent["loc"]))
+    # R9 clap settings: an option value must reach the configuration exactly as typed, one value per occurrence - any Arg
+    # setting beyond naming, help, default, arity-0/1 action and the identity value parser changes how values are read
+    # (value_delimiter splits at commas, env reads the environment, num_args / value_terminator change grouping,
+    # ignore_case / default_missing_value / allow_hyphen_values / require_equals change what is accepted)
+    benign = {"action", "value_parser", "value_name", "long", "short", "long_help", "help", "required", "default_value", "id",
+              "help_heading", "display_order", "hide", "next_line_help", "visible_alias", "visible_short_alias"}
+    n9 = 0
+    for arg, ent in sorted(table.items()):
+        extra = sorted(set(ent["methods"]) - benign)
+        n9 += 1
+        if extra:
+            res.add(Finding("C20.R9", "cli::Args", "settings:" + arg, "--%s carries clap setting(s) %s: the value would no longer reach the library exactly as "
+                            "typed, one value per occurrence of the option" % ((ent["long"] or [arg])[0], extra), loc=ent["loc"]))
+        else:
+            res.holds("C20.R9", "cli::Args", "settings:" + arg, ",".join(sorted(set(ent["methods"]))))
+        want_action = "Append" if arg == "removal_marker_target_name" else ("SetTrue" if arg in ("list", "list_all", "list_json") else "Set")
+        if ent["action"] != want_action:
+            res.add(Finding("C20.R9", "cli::Args", "action:" + arg, "--%s has clap action %s, expected %s" % ((ent["long"] or [arg])[0], ent["action"], want_action), loc=ent["loc"]))
+        else:
+            res.holds("C20.R9", "cli::Args", "action:" + arg, want_action)
+    res.floor("C20.R9", "clap arguments with their settings", n9, 13)
     # R8 effects
     wl = set(eff["main_effect_whitelist"])
     user = [x for x in P.user_bodies() if x["kind"] in ("Fn", "AssocFn")]
